@@ -826,7 +826,7 @@ impl Property for C18 {
         Isolation::Child
     }
     fn cases(&self, tier: Tier) -> u32 {
-        tier.pick(4_000, 120_000)
+        tier.pick(30_000, 600_000)
     }
     fn strategy(&self, tier: Tier) -> BoxedStrategy<Case> {
         let nt = TARGETS.len() as u8;
